@@ -14,9 +14,16 @@ class Unit:
                unlabeled obligations (safety, invariants, call pre-conditions) support every property of the unit
     """
 
-    def __init__(self, name, relpath, build, props, shards=1, timeout_ms=10000, note=''):
+    def __init__(self, name, relpath, build, props, shards=1, timeout_ms=10000, note='', keep=None, focus=None):
         self.name, self.relpath, self.build, self.props = name, relpath, build, list(props)
         self.shards, self.timeout_ms, self.note = shards, timeout_ms, note
+        self.focus = focus        # obligation name -> extra hypotheses (switches that turn guarded hypotheses `switch -> clause` off where a query does not need them: dropping a hypothesis is always sound)
+        self.keep = keep          # obligation-name predicate: a function verified by several units (different axiom sets) splits its obligations between them
+
+    def select(self, obs):
+        if self.keep is not None: obs = [o for o in obs if self.keep(o[0])]
+        if self.focus is not None: obs = [(o[0], list(o[1]) + list(self.focus(o[0])), *o[2:]) for o in obs]
+        return obs
 
     def props_of(self, obname):
         # obname: kind/label...  e.g. ens/C04/conservation, inv-pres#0/ledger, safe/ZeroDivisionError, exc/RuntimeError/C15/unchanged
@@ -32,6 +39,7 @@ class Unit:
             core.reset_fresh()
             eng, axioms = self.build()
             obs = eng.run()
+            obs = self.select(obs)
         except Unsupported as e:
             return {'undecided': f'outside the supported subset / contract not applicable: {e}', 'agg': {}, 'paths': 0, 'symexec_s': time.time() - t0}
         except FileNotFoundError as e:
